@@ -517,4 +517,139 @@ theorem matrix_faithful (rows columns : Nat) :
         (fun j k p _ _ hj hk => colMajorItem_injective rows columns j k p hj hk)
         (fun p q c vp vq => ofMatrix_injective rows columns p q c vp vq)
 
+/-- The copying iterators return, call by call, the current contents of the cells
+    `cellOf 0, cellOf 1, …` (and leave the source alone). -/
+theorem copy_kth {σ π κ α : Type} {next : σ → Outcome (Option π × σ)} {s0 : σ}
+    {total : Nat} {item : Nat → Option π} {state : Nat → σ}
+    (E : Enumerates next s0 total item state) {cell : π → Option κ} {cellOf : Nat → κ}
+    (F : Faithful item total cell cellOf) (mem : κ → α) (n : Nat) :
+    collect (copyNext next cell mem) n s0 =
+      .ok ((List.range n).map (fun k => if k < total then some (some (mem (cellOf k))) else none),
+        state n) := by
+  have := (E.copy cell mem).collect_from n 0
+  rw [E.start, Nat.zero_add, ← List.range_eq_range'] at this
+  rw [this]
+  congr 2
+  apply List.map_congr_left
+  intro k _
+  by_cases hk : k < total
+  · obtain ⟨p, hp, hc⟩ := F.resolves k hk
+    simp [hk, hp, hc]
+  · simp [hk, E.item_none k (by omega)]
+
+/-- Matrix sources built from a `Matrix` by `MatrixRange` (clipped, possibly empty) and
+    `MatrixReverse`, nested to any depth, resolve every position inside their size and never map
+    two positions to one cell. -/
+theorem matrix_views_wellFormed :
+    (∀ rows columns, (MSource.ofMatrix rows columns).WellFormed) ∧
+      (∀ {κ : Type} (src : MSource κ), src.WellFormed →
+        ∀ rs rl cs cl, (src.range rs rl cs cl).WellFormed) ∧
+      (∀ {κ : Type} (src : MSource κ), src.WellFormed →
+        ∀ r c, (src.reverse r c).WellFormed) :=
+  ⟨ofMatrix_wellFormed, fun src h rs rl cs cl => range_wellFormed src h rs rl cs cl,
+    fun src h r c => reverse_wellFormed src h r c⟩
+
+example : ((MSource.ofMatrix 3 4).range 1 5 0 0).rows = 2 ∧
+    ((MSource.ofMatrix 3 4).range 1 5 0 0).columns = 0 := by decide
+
+/-- Every iterator kind over every well-formed matrix source is faithful: row-major,
+    column-major, any existing row, any existing column, the diagonal.  With
+    `mut_items_distinct` / `owned_moves_once` / `copy_kth` this gives the element-level
+    statements for `Matrix`, `MatrixView`, `MatrixRange` (incl. empty) and `MatrixReverse`. -/
+theorem matrix_source_faithful {κ : Type} [Inhabited κ] (src : MSource κ) (h : src.WellFormed) :
+    Faithful (rowMajorItem src.rows src.columns) (src.rows * src.columns) src.cell
+        (fun k => ((rowMajorItem src.rows src.columns k).bind src.cell).getD default) ∧
+      Faithful (colMajorItem src.rows src.columns) (src.rows * src.columns) src.cell
+        (fun k => ((colMajorItem src.rows src.columns k).bind src.cell).getD default) ∧
+      (∀ row, row < src.rows →
+        Faithful (rowItem src.columns row) src.columns src.cell
+          (fun k => ((rowItem src.columns row k).bind src.cell).getD default)) ∧
+      (∀ column, column < src.columns →
+        Faithful (columnItem src.rows column) src.rows src.cell
+          (fun k => ((columnItem src.rows column k).bind src.cell).getD default)) ∧
+      Faithful (diagonalItem src.rows src.columns) (min src.rows src.columns) src.cell
+        (fun k => ((diagonalItem src.rows src.columns k).bind src.cell).getD default) := by
+  refine ⟨?_, ?_, ?_, ?_, ?_⟩
+  · exact faithful_of_injective src.cell (fun p => p.1 < src.rows ∧ p.2 < src.columns)
+      (fun k hk => ⟨(k / src.columns, k % src.columns), by simp [rowMajorItem, hk],
+        rowMajorItem_valid _ _ k _ (by simp [rowMajorItem, hk])⟩)
+      (rowMajorItem_injective _ _) h.resolves h.injective
+  · exact faithful_of_injective src.cell (fun p => p.1 < src.rows ∧ p.2 < src.columns)
+      (fun k hk => ⟨(k % src.rows, k / src.rows), by simp [colMajorItem, hk],
+        colMajorItem_valid _ _ k _ (by simp [colMajorItem, hk])⟩)
+      (colMajorItem_injective _ _) h.resolves h.injective
+  · intro row hrow
+    refine faithful_of_injective src.cell (fun p => p.1 < src.rows ∧ p.2 < src.columns)
+      (fun k hk => ⟨(row, k), by simp [rowItem, hk], hrow, hk⟩) ?_ h.resolves h.injective
+    intro j k p hj hk
+    unfold rowItem at hj hk
+    split at hj <;> split at hk <;> simp at hj hk
+    have := hj.trans hk.symm
+    simp only [Prod.mk.injEq] at this
+    omega
+  · intro column hcol
+    refine faithful_of_injective src.cell (fun p => p.1 < src.rows ∧ p.2 < src.columns)
+      (fun k hk => ⟨(k, column), by simp [columnItem, hk], hk, hcol⟩) ?_ h.resolves h.injective
+    intro j k p hj hk
+    unfold columnItem at hj hk
+    split at hj <;> split at hk <;> simp at hj hk
+    have := hj.trans hk.symm
+    simp only [Prod.mk.injEq] at this
+    omega
+  · refine faithful_of_injective src.cell (fun p => p.1 < src.rows ∧ p.2 < src.columns)
+      (fun k hk => ⟨(k, k), by simp [diagonalItem, hk], by omega, by omega⟩) ?_
+      h.resolves h.injective
+    intro j k p hj hk
+    unfold diagonalItem at hj hk
+    split at hj <;> split at hk <;> simp at hj hk
+    have := hj.trans hk.symm
+    simp only [Prod.mk.injEq] at this
+    omega
+
+example : (MSource.ofMatrix 2 3).WellFormed := ofMatrix_wellFormed 2 3
+
+/-- The row, column and diagonal iterators in the vocabulary of the generic layer (so that
+    `mut_items_distinct`, `copy_kth` apply to them with `matrix_source_faithful`). -/
+theorem line_iterators_enumerate (rows columns : Nat) :
+    (∀ row, Enumerates lineNext ⟨.row row, ⟨0, columns⟩⟩ columns (rowItem columns row)
+        (lineState (.row row) columns)) ∧
+      (∀ column, Enumerates lineNext ⟨.column column, ⟨0, rows⟩⟩ rows (columnItem rows column)
+        (lineState (.column column) rows)) ∧
+      Enumerates lineNext (LineIter.newDiagonal rows columns) (min rows columns)
+        (diagonalItem rows columns) (lineState .diagonal (min rows columns)) := by
+  refine ⟨fun row => ?_, fun column => ?_, ?_⟩
+  · have h : (fun k => if k < columns then some ((Line.row row).position k) else none) =
+        rowItem columns row := by funext k; simp [rowItem, Line.position]
+    rw [← h]; exact line_enumerates _ _
+  · have h : (fun k => if k < rows then some ((Line.column column).position k) else none) =
+        columnItem rows column := by funext k; simp [columnItem, Line.position]
+    rw [← h]; exact line_enumerates _ _
+  · have h : (fun k => if k < min rows columns then some (Line.diagonal.position k) else none) =
+        diagonalItem rows columns := by funext k; simp [diagonalItem, Line.position]
+    rw [← h]; exact line_enumerates _ _
+
+/-- Worked instance, end to end: the mutable row-major iterator over an `N×M` `Matrix` hands
+    out the cells `0, 1, …, N·M − 1`, each once. -/
+theorem matrix_rowMajor_mut_distinct (rows columns n : Nat) :
+    collect (refNext rowMajorNext (MSource.ofMatrix rows columns).cell) n (MatIter.new rows columns) =
+        .ok ((List.range n).map (fun k => if k < rows * columns then some (some k) else none),
+          rowMajorState rows columns n) ∧
+      ((List.range (min n (rows * columns))).map fun k => k).Nodup :=
+  mut_items_distinct (rowMajor_enumerates rows columns) (matrix_faithful rows columns).1 n
+
+/-- Worked instance: the owning iterator over a `Tensor` returns the original data in storage
+    order and leaves placeholders in exactly the cells it has visited. -/
+theorem tensor_owned_moves_once {ν α : Type} [DecidableEq ν] (shape : Shape ν) (data : List α)
+    (t : Tensor ν α) (ht : Tensor.tryFrom shape data = some t) (mem0 : Nat → α) (placeholder : α)
+    (n : Nat) :
+    collect (ownedNext shapeNext (TSource.ofTensor t).cell placeholder) n
+        (ShapeIter.new (shape.map (·.2)), mem0) =
+      .ok ((List.range n).map
+          (fun k => if k < prod (shape.map (·.2)) then some (some (mem0 k)) else none),
+        (ShapeIter.steps n (ShapeIter.new (shape.map (·.2))),
+          fun c => if c ∈ (List.range (min n (prod (shape.map (·.2))))).map (fun k => k)
+            then placeholder else mem0 c)) :=
+  owned_moves_once (shape_enumerates (shape.map (·.2))) (tensor_faithful shape data t ht).2
+    mem0 placeholder n
+
 end EasyMl.C09
